@@ -103,6 +103,18 @@ def generate(rng, tier, idx):
     body = list(rest)
     for o in inter:
         body.insert(rng.randint(0, len(body)), o)
-    tail = [{"op": "forest_check"}, getv_op(K, rng), getv_op(K, rng), {"op": "dump", "path": path},
-            {"op": "restart", "path": path, "via": "path"}, getv_op(K, rng), {"op": "dumps"}]
+    def offers():
+        # a variant that sits where it belongs is offered to a container that is not its own (top or another variant)
+        out = []
+        for _ in range(rng.randint(0, 2)):
+            if len(K["vars"]) < 2:
+                break
+            v = pick(rng, K["vars"])
+            own = "top" if v["parent"] is None else v["parent"]
+            others = [x for x in ["top"] + [w["n"] for w in K["vars"] if w["n"] != v["n"]] if x != own]
+            if others:
+                out.append({"op": "var_add", "var": v["n"], "into": pick(rng, others)})
+        return out
+    tail = offers() + [{"op": "forest_check"}, getv_op(K, rng), getv_op(K, rng), {"op": "dump", "path": path},
+                       {"op": "restart", "path": path, "via": "path"}] + offers() + [{"op": "forest_check"}, getv_op(K, rng), {"op": "dumps"}]
     return {"machine": "M-CI", "cfg": {"simset": pick(rng, ["insertion", "shuffle", "reverse"])}, "ops": head + body + tail}
